@@ -132,8 +132,16 @@ func recursiveCheckAllRelationsTypesHaveRelation(p *parser, item item, namespace
 					relation, t.Namespace)
 			}
 		} else {
-			// Type is a subject set, we need to recursively check if the type has
-			// the required relation.
+			// Type is a subject set. The check engine evaluates the relation on
+			// the namespace of the subject set itself, so it must be declared
+			// there, otherwise the check fails with "relation does not
+			// exist".
+			if _, ok := p.query().findRelation(t.Namespace, relation); !ok {
+				p.addErr(item, "relation %q was not declared in namespace %q",
+					relation, t.Namespace)
+			}
+			// We also need to recursively check if the type has the required
+			// relation.
 			recursiveCheckAllRelationsTypesHaveRelation(
 				p, item, t.Namespace, t.Relation, relation, depth-1, visited)
 		}
